@@ -435,6 +435,7 @@ impl<R> Drop for Multiplexor<R> {
         let mux_dropped = DroppedFlow {
             flow_id: 0,
             finish_sent: Arc::new(AtomicBool::new(true)),
+            unread: false,
         };
         if self.dropped_flows_tx.send(mux_dropped).is_err() {
             debug!("failed to inform task of dropped multiplexor");
@@ -450,6 +451,8 @@ impl<R> Drop for Multiplexor<R> {
 struct DroppedFlow {
     flow_id: u32,
     finish_sent: Arc<AtomicBool>,
+    /// Whether the stream was dropped with received data that the user never read.
+    unread: bool,
 }
 
 impl PartialEq<u32> for DroppedFlow {
